@@ -125,7 +125,7 @@ func init() {
 		Rule: "(i) EVERY string 7E m 7E with m over {7D,01,02,00} of length 0..13 (thorough ..15) and every string of length <=6 over {7E,7D,01,02,00,FF} without the frame shape; " +
 			"(ii) structured product: ID menu x property words (all single bits, version/fragment/encrypt combinations, declared length {0,1,2,5,1023}) x phone x serial x package fields x actual body length = declared+{-1,0,+1} " +
 			"x checksum {right, off by one bit, steered to 7D, steered to 7E} x escape rendering {canonical, raw 7D last, raw 7D elsewhere, 7D 00, 7D 03, 7D before the closing delimiter}; " +
-			"(iii) for valid frames of both versions with and without package fields: every truncation, every single-bit flip, every single-byte substitution by all 256 values, every single-byte insertion of a special byte, either delimiter removed. " +
+			"(iii) for valid frames of both versions with and without package fields: every truncation, every single-bit flip, every single-byte substitution by all 256 values, every single-byte insertion of a special byte, either delimiter removed, every prefix of the payload closed by its own matching check code (too short for the header its property word announces). " +
 			"Every accepted frame is also decoded by ONE re-used message from ONE re-used buffer (fields must be this frame's). Strings with an interior 0x7E are outside the property and skipped. Non-trivial = the reference accepts the string (a valid frame whose fields are then compared) or the string differs from a valid frame in exactly one byte/bit",
 		Assumptions: []string{"reference validator harness/ref/frame.go; encryption field compared as bit 10 only, as the repository documents"},
 		Run:         c02Run,
@@ -324,6 +324,15 @@ func c02Run(ctx *vc.Ctx, rep *vc.Report) {
 			for _, v := range []byte{0x7D, 0x01, 0x02, 0x00, 0xFF} {
 				g := append(append(append([]byte(nil), f[:pos]...), v), f[pos:]...)
 				eval(g, "insert", true)
+			}
+		}
+		// (iv) every prefix of the payload, closed by ITS OWN check code (a frame that is too short for the header its
+		// property word announces, but intact on the wire)
+		if full, err := ref.Unescape(f); err == nil && len(full) > 1 {
+			pl := full[:len(full)-1]
+			for cut := 0; cut < len(pl); cut++ {
+				q := append([]byte(nil), pl[:cut]...)
+				eval(ref.Escape(append(q, ref.Xor(q))), "payload-prefix", true)
 			}
 		}
 		eval(append([]byte(nil), f[1:]...), "no-open-delim", true)
